@@ -43,7 +43,7 @@ struct vk_fd {
 	int		epoll_owner;	/* VK_EPOLL: index into eps[] */
 };
 
-/* faults (persistent from the first call) */
+/* faults (persistent from the first call; the eventfd faults from the efd_ok-th creation on) */
 struct vk_faults {
 	int	no_pwait2;	/* epoll_pwait2 -> ENOSYS */
 	int	perm_pwait2;	/* epoll_pwait2 -> EPERM */
@@ -56,6 +56,7 @@ struct vk_faults {
 	int	eintr_wait[8];	/* the k-th main wait (1-based) fails with EINTR */
 	int	n_eintr;
 	int	eintr_ctl;	/* the k-th epoll_ctl fails once with EINTR (0 = never) */
+	int	efd_ok;		/* no_eventfd2 / no_eventfd take effect once this many eventfds were created (0 = from the first call) */
 };
 
 extern struct vk_faults vk_faults;
